@@ -249,6 +249,7 @@ pub fn check_c01_complete(events: &[ApiEvent], out: &mut Outcome) {
 // ------------------------------------------------------------ C06 progress
 
 pub struct StallInfo<'a> {
+    pub two_send_waiters: bool,
     pub unfinished: &'a [(String, Group)],
     pub completed_when_repolled: Option<bool>,
     pub end: &'a RunEnd,
@@ -275,11 +276,12 @@ pub fn check_c06(st: &StallInfo, panic: bool, out: &mut Outcome) {
         k.dedup();
         k
     };
+    let only_send_waiters = kinds.iter().any(|k| matches!(k.as_str(), "c-body" | "c-second" | "c-resetwatch")); // (others pending are downstream of it)
     match st.completed_when_repolled {
         Some(true) => out.fail(
             "C06",
             "lost-wakeup",
-            format!("C06/lost-wakeup/{}", kinds.join("+")),
+            if st.two_send_waiters && only_send_waiters { "C06/two-waiters-share-the-stream-send-task-slot".to_string() } else { format!("C06/lost-wakeup/{}", kinds.join("+")) },
             format!("nothing runnable, nothing in flight, yet tasks {:?} are pending — and they complete once every task is polled again: a wake-up was lost", apps.iter().map(|a| &a.0).collect::<Vec<_>>()),
         ),
         _ => out.fail(
@@ -714,5 +716,51 @@ pub fn wire_classes(tap: &Tap, av: &AckedView, out: &mut Outcome) {
     }
     if partial_write {
         out.label("partial-write-inside-frame");
+    }
+}
+
+// ------------------------------------------------------------ C13 send side: every emitted header section is valid
+
+pub fn check_c13_emitted(tap: &Tap, h2_sides: &[Side], out: &mut Outcome) {
+    use crate::refmodel::http::{self, Kind};
+    for &e in h2_sides {
+        // per stream: has a final (non-1xx) head been sent?
+        let mut final_sent: HashSet<u32> = HashSet::new();
+        for (pos, f) in tap.frames.iter().enumerate() {
+            if f.from != e {
+                continue;
+            }
+            let fields = match &f.block {
+                Some(Ok(fl)) => fl,
+                _ => continue,
+            };
+            let start = f.block_start.unwrap_or(pos);
+            let (kind, sid, end_stream) = match &tap.frames[start].frame {
+                Ok(Frame::Push { promised, .. }) => (Kind::PushRequest, *promised, false),
+                Ok(Frame::Headers { stream, end_stream, .. }) => {
+                    let k = if final_sent.contains(stream) {
+                        Kind::Trailers
+                    } else if e == Side::Client {
+                        Kind::Request
+                    } else {
+                        Kind::Response
+                    };
+                    (k, *stream, *end_stream)
+                }
+                _ => continue,
+            };
+            let v = http::check(kind, fields, end_stream, true);
+            if matches!(kind, Kind::Request) || (kind == Kind::Response && v.status.map(|s| s >= 200).unwrap_or(true)) {
+                final_sent.insert(sid);
+            }
+            if !v.is_valid() {
+                out.fail(
+                    "C13",
+                    "http/emitted-malformed",
+                    format!("C13/{}/emits/{}", e.name(), v.malformed.join("+")),
+                    format!("{} emitted a malformed {:?} header section on stream {}: {:?}; fields {:?}", e.name(), kind, sid, v.malformed, fields.iter().take(8).map(|x| format!("{}: {}", crate::util::show(&x.name), crate::util::show(&x.value))).collect::<Vec<_>>()),
+                );
+            }
+        }
     }
 }
